@@ -131,6 +131,53 @@ fn construct_t<T: RealNumber>(c: &mut Case) {
     if let Some(Some(a)) = built.get(0).map(|x| x.1.as_ref()) {
         let it: Vec<f64> = fv(&a.iter().collect::<Vec<T>>());
         c.check("iter-row-major", it == m.d, &sig, || format!("iter() yields {:?}", it));
+        // every way of consuming the iterator sees the same row-major sequence (an overridden fold / nth / ... included)
+        let mut styles: Vec<(&str, Vec<f64>)> = Vec::new();
+        {
+            let mut v = Vec::new();
+            for x in a.iter() {
+                v.push(f(x));
+            }
+            styles.push(("for-loop", v));
+            let mut v = Vec::new();
+            a.iter().for_each(|x| v.push(f(x)));
+            styles.push(("for_each", v));
+            styles.push(("fold", a.iter().fold(Vec::new(), |mut acc, x| {
+                acc.push(f(x));
+                acc
+            })));
+            styles.push(("enumerate+fold", a.iter().enumerate().fold(vec![0.0; r * cc], |mut acc, (i, x)| {
+                if i < acc.len() {
+                    acc[i] = f(x);
+                }
+                acc
+            })));
+            let k = c.rng.below(r * cc);
+            let mut itr = a.iter();
+            let mut v: Vec<f64> = (0..k).filter_map(|_| itr.next()).map(f).collect();
+            itr.for_each(|x| v.push(f(x)));
+            styles.push(("next-then-for_each", v));
+            let mut v: Vec<f64> = m.d[..k].to_vec();
+            v.extend(a.iter().skip(k).map(f));
+            styles.push(("skip", v));
+            let mut v: Vec<f64> = Vec::new();
+            let mut itr = a.iter();
+            while let Some(x) = itr.nth(0) {
+                v.push(f(x));
+            }
+            styles.push(("nth(0)", v));
+            let (xs, _): (Vec<T>, Vec<usize>) = a.iter().zip(0..).unzip();
+            styles.push(("zip+unzip", fv(&xs)));
+            styles.push(("map+rev-collect", {
+                let mut v: Vec<f64> = a.iter().map(f).collect::<Vec<f64>>().into_iter().rev().collect();
+                v.reverse();
+                v
+            }));
+        }
+        for (name, v) in &styles {
+            c.check(&format!("iter-row-major:{}", name), *v == m.d, &sig, || format!("consuming iter() by {} yields {:?}, row-major data {:?} ({}x{})", name, v, m.d, r, cc));
+        }
+        c.check("iter-count/last", a.iter().count() == r * cc && a.iter().last().map(f) == m.d.last().cloned(), &sig, || format!("count {} / last {:?}", a.iter().count(), a.iter().last().map(f)));
         for (name, b) in &built[1..] {
             if let Some(b) = b {
                 c.check("constructors-equal", a == b, &format!("{}/{}", name, sig), || format!("from_array != {}", name));
